@@ -34,6 +34,7 @@ def main() -> int:
   ctx = core.Ctx(a.prop, a.tier, seed, getattr(mod, "LEVEL", "model_checking"))
   try:
     if a.replay:
+      ctx.replaying = True
       scen = json.load(open(a.replay))
       mod.replay(ctx, scen)
     else:
